@@ -113,14 +113,20 @@ pub fn access<T>(kind: Access, offset: usize, address: usize, shadow: &mut [u8])
                 if kind == Access::Read {
                     bytes.iter_mut().for_each(|b| *b = MOVED_OUT);
                 }
-            } else if bytes.iter().any(|b| *b != t && *b != UNOWNED && *b != MOVED_OUT) {
-                violation(format!(
-                    "{:?} of {} at offset {} over bytes that belong to another value (shadow {:?})",
-                    kind,
-                    name,
-                    offset,
-                    &bytes[..bytes.len().min(8)]
-                ));
+            } else {
+                if bytes.iter().any(|b| *b != t && *b != UNOWNED && *b != MOVED_OUT) {
+                    violation(format!(
+                        "{:?} of {} at offset {} over bytes that belong to another value (shadow {:?})",
+                        kind,
+                        name,
+                        offset,
+                        &bytes[..bytes.len().min(8)]
+                    ));
+                }
+                if kind == Access::Read {
+                    // the value has been moved out of the record, its bytes are free again
+                    bytes.iter_mut().for_each(|b| *b = MOVED_OUT);
+                }
             }
         }
     }
